@@ -11,6 +11,7 @@ import (
 	"github.com/zeromicro/go-zero/core/syncx"
 	"github.com/zeromicro/go-zero/core/threading"
 	"github.com/zeromicro/go-zero/core/timex"
+	"github.com/zeromicro/go-zero/internal/verifhook"
 )
 
 const idleRound = 10
@@ -67,6 +68,7 @@ func NewPeriodicalExecutor(interval time.Duration, container TaskContainer) *Per
 func (pe *PeriodicalExecutor) Add(task any) {
 	if vals, ok := pe.addAndCheck(task); ok {
 		pe.commander <- vals
+		verifhook.At("pe.add.sent", task)
 		<-pe.confirmChan
 	}
 }
